@@ -149,6 +149,7 @@ def xn_json(e):
 def run(ctx):
     rng = ctx.rng
     nsreqs, nsmetas = [], []
+    rtreqs, rtmetas = [], []
     N = 300 if ctx.tier == "quick" else 5000
     fails, diffs, samples, reqs, metas = [], [], [], [], []
     drift = 0
@@ -202,6 +203,8 @@ def run(ctx):
                         return [x[1], strip(x[2]), strip(x[3]), x[4], sorted(map(tuple, x[5])), clark(x), sorted(map(tuple, x[7])), [norm(k) for k in x[8]]]
                     if norm(back) != norm(orig):
                         what = "from_xml(to_xml(tree)) differs from the tree (up to surrounding white space)"
+                    else:
+                        rtreqs.append({"op": "exportimport", "tree": orig}); rtmetas.append((case, back))
         if what:
             fails.append({"case": case, "what": what})
         if impl.snapshot(root) != orig:
@@ -220,6 +223,15 @@ def run(ctx):
             if m != got:
                 diffs.append({"case": case, "impl": "lxml infoset of the exporter's output: " + json.dumps(got)[:300],
                               "model": "resolveX (xElemG tree): " + json.dumps(m)[:300]})
+    if ctx.driver and rtreqs:
+        # the model chain export -> grammar -> namespace processing -> raw import against the real from_xml(to_xml(tree)):
+        # every field verbatim (white space included), ids aside
+        def noid(x):
+            return x if not isinstance(x, list) else [None] + [x[1], x[2], x[3], x[4], x[5], x[6], x[7], [noid(k) for k in x[8]]]
+        for (case, back), m in zip(rtmetas, ctx.driver.batch(rtreqs)):
+            if m is None or noid(m) != noid(back):
+                diffs.append({"case": case, "impl": "from_xml(to_xml(tree)) = " + json.dumps(noid(back))[:300],
+                              "model": "processElement (resolveX (xElemG tree)) = " + json.dumps(noid(m) if m else None)[:300]})
     if ctx.driver:
         outs = ctx.driver.batch(reqs)
         for (case, out, eml), m in zip(metas, outs):
